@@ -134,6 +134,24 @@ Definition doc_valid (d : did_doc) : bool :=
     forallb (rel_valid d) (doc_capdel d) &&
     forallb service_valid (doc_services d).
 
+(** DIDDocument.Valid() of a document read from a JSON genesis file: the JSON codec writes an absent repeated field as []
+    and reads that back as an empty, non-nil slice, so the two "== nil" tests of Valid() pass for a document without
+    verification methods or without authentication entries (observed on the implementation: GD entries of that shape are
+    accepted) *)
+Definition doc_valid_json (d : did_doc) : bool :=
+  if doc_empty d then true
+  else
+    validate_did (doc_id d) &&
+    (match doc_controller d with
+     | Some c => empty_dids c || validate_dids c
+     | None => true end) &&
+    (match doc_contexts d with Some cs => validate_contexts cs | None => true end) &&
+    forallb (vm_valid (doc_id d)) (doc_vms d) &&
+    forallb (rel_valid d) (doc_auth d) && forallb (rel_valid d) (doc_assert d) &&
+    forallb (rel_valid d) (doc_keyagree d) && forallb (rel_valid d) (doc_capinv d) &&
+    forallb (rel_valid d) (doc_capdel d) &&
+    forallb service_valid (doc_services d).
+
 (** ** entries *)
 Definition entry_empty (e : did_entry) : bool :=
   match en_doc e with
@@ -262,7 +280,7 @@ Fixpoint init_did (g : did_genesis) (st : did_state) : did_state :=
 Definition validate_did_entry (strict : bool) (p : bytes * did_entry) : bool :=
   validate_did (fst p) &&
   match en_doc (snd p) with
-  | Some d => doc_valid d && (negb strict || entry_deactivated (snd p) || bytes_eqb (doc_id d) (fst p))
+  | Some d => doc_valid_json d && (negb strict || entry_deactivated (snd p) || bytes_eqb (doc_id d) (fst p))
   | None => false
   end.
 Definition validate_did_genesis_gen (strict : bool) (g : did_genesis) : bool := forallb (validate_did_entry strict) g.
